@@ -402,3 +402,71 @@ V('c15-benign-return', 'C15', 'silent', (H, '''                Err(channel::TryR
                     log::info!("Stopping hot-reloading");
                     return;
                 }'''))
+
+# ---- C08
+V('c08-reintroduce-F1', 'C08', 'C08.R1', (HD, '''        sort_data.visited.insert(key.into_owned());
+
+        for rdep in node.rdeps.iter() {
+            self.visit(sort_data, rdep.as_borrowed());
+        }
+''', '''        for rdep in node.rdeps.iter() {
+            self.visit(sort_data, rdep.as_borrowed());
+        }
+        sort_data.visited.insert(key.into_owned());
+'''))
+V('c08-reintroduce-F2', 'C08', 'C08.R2', (H, '''        *token = None;
+        // Wake up the hot-reloading thread if it is waiting to send the next
+        // answer
+        self.condvar.notify_all();''', '''        *token = None;'''))
+V('c08-reintroduce-F3', 'C08', 'C08.R3', (A, '''        let load_asset = || {
+            let load = std::panic::AssertUnwindSafe(|| (typ.inner.load)(self, id.clone()));
+            std::panic::catch_unwind(load)
+                .unwrap_or_else(|_| Err(Error::new(id, "panicked while reloading".into())))
+        };''', '''        let load_asset = || (typ.inner.load)(self, id);'''))
+V('c08-notify-forgets-notify_all', 'C08', 'C08.R2', (H, '''        *guard = Some(token);
+        self.condvar.notify_all();''', '''        *guard = Some(token);'''))
+V('c08-answer-before-update', 'C08', 'C08.R3', (H, '''                    unsafe {
+                        cache.update_if_local(ptr.as_ref(), reloader.as_ref());
+                    }
+                    answers.notify(token);''', '''                    if ready == 0 {
+                        unsafe {
+                            cache.update_if_local(ptr.as_ref(), reloader.as_ref());
+                        }
+                        answers.notify(token);
+                    }'''))
+V('c08-wait-even-if-send-failed', 'C08', 'C08.R4', (H, '''        if self
+            .sender
+            .send(CacheMessage::Ptr(
+                NonNull::from(map),
+                NonNull::from(self),
+                token,
+            ))
+            .is_ok()
+        {
+            // When the hot-reloading thread is done, it sends back our back our token
+            self.answers.wait_for_answer(token);
+        }''', '''        let _ = self.sender.send(CacheMessage::Ptr(
+            NonNull::from(map),
+            NonNull::from(self),
+            token,
+        ));
+        self.answers.wait_for_answer(token);'''))
+V('c08-wait-for-any-token', 'C08', 'C08.R4', (H, '''|t| *t != Some(token));''', '''|t| t.is_none());'''))
+V('c08-load-under-shard-lock', 'C08', 'C08.R5', (A, '''        let entry = crate::asset::load_and_record(cache, id, typ)?;
+
+        Ok(self.assets().insert(entry))''', '''        let entry = crate::asset::load_and_record(cache, id, typ)?;
+        let _busy = BUSY.lock().unwrap_or_else(|e| e.into_inner());
+        let again = crate::asset::load_and_record(cache, entry.id().clone(), typ);
+        drop(again);
+
+        Ok(self.assets().insert(entry))'''), (A, '''pub(crate) trait RawCache: Sized {''', '''static BUSY: std::sync::Mutex<()> = std::sync::Mutex::new(());
+
+pub(crate) trait RawCache: Sized {'''))
+V('c08-benign-visit-early-insert', 'C08', 'silent', (HD, '''        if sort_data.visited.contains(&key as &dyn Key) {
+            return;
+        }
+''', '''        let already = sort_data.visited.contains(&key as &dyn Key);
+        if already {
+            return;
+        }
+'''))
